@@ -25,6 +25,11 @@ pub trait Kind: 'static {
     fn q(qo: &Self::QO) -> &Self::Q {
         qo.borrow()
     }
+    /// another spelling of the same borrowed-form query (equal to `qo(raw)` under `Q: Eq`, but
+    /// possibly of a different byte length); kinds with one spelling return `qo(raw)`
+    fn qo_alt(raw: u8, _variant: usize) -> Self::QO {
+        Self::qo(raw)
+    }
     fn val(x: u32) -> Self::V;
     fn kraw(k: &Self::K) -> u8;
     fn kid(k: &Self::K) -> u32;
@@ -691,5 +696,82 @@ impl Kind for Tagged {
     }
     fn vdisp(x: u32) -> String {
         format!("h{x}")
+    }
+}
+
+/// Heap-owning keys with an *unsized* borrowed form whose equality is not byte equality:
+/// `PathBuf` / `Path` compare by components, so "d7/f", "d7//f" and "d7/f/" are equal queries of
+/// different lengths.
+pub struct PathK;
+#[derive(Clone, PartialEq, Eq)]
+pub struct PK(pub std::path::PathBuf);
+impl Borrow<std::path::Path> for PK {
+    fn borrow(&self) -> &std::path::Path {
+        self.0.as_path()
+    }
+}
+impl fmt::Debug for PK {
+    fn fmt(&self, f: &mut fmt::Formatter<'_>) -> fmt::Result {
+        fmt::Debug::fmt(&self.0, f)
+    }
+}
+impl fmt::Display for PK {
+    fn fmt(&self, f: &mut fmt::Formatter<'_>) -> fmt::Result {
+        write!(f, "{}", self.0.display())
+    }
+}
+fn pkey(raw: u8) -> std::path::PathBuf {
+    std::path::PathBuf::from(format!("d{raw}/f"))
+}
+impl Kind for PathK {
+    type K = PK;
+    type Q = std::path::Path;
+    type QO = std::path::PathBuf;
+    type V = Box<u32>;
+    const NAME: &'static str = "path";
+    const TRACKED: bool = false;
+    const NOALLOC: bool = false;
+    fn key(raw: u8) -> PK {
+        PK(pkey(raw))
+    }
+    fn qo(raw: u8) -> std::path::PathBuf {
+        pkey(raw)
+    }
+    fn qo_alt(raw: u8, variant: usize) -> std::path::PathBuf {
+        match variant % 3 {
+            0 => pkey(raw),
+            1 => std::path::PathBuf::from(format!("d{raw}//f")),
+            _ => std::path::PathBuf::from(format!("d{raw}/f/")),
+        }
+    }
+    fn val(x: u32) -> Box<u32> {
+        Box::new(x)
+    }
+    fn kraw(k: &PK) -> u8 {
+        k.0.components().next().and_then(|c| c.as_os_str().to_str()).and_then(|s| s.strip_prefix('d')).and_then(|s| s.parse::<u8>().ok()).unwrap_or(255)
+    }
+    fn kid(_: &PK) -> u32 {
+        NOID
+    }
+    fn vval(v: &Box<u32>) -> u32 {
+        **v
+    }
+    fn vid(_: &Box<u32>) -> u32 {
+        NOID
+    }
+    fn vset(v: &mut Box<u32>, x: u32) {
+        **v = x
+    }
+    fn kdbg(raw: u8) -> String {
+        format!("{:?}", pkey(raw))
+    }
+    fn vdbg(x: u32) -> String {
+        format!("{x}")
+    }
+    fn kdisp(raw: u8) -> String {
+        format!("d{raw}/f")
+    }
+    fn vdisp(x: u32) -> String {
+        format!("{x}")
     }
 }
